@@ -731,6 +731,10 @@ func (e *Engine) convert(st *State, v Val, from, to types.Type) Val {
 			// fresh backing array whose contents are tied to the string by an uninterpreted function
 			r := e.allocRef(st, "bytes")
 			e.S.DeclareFun("str_to_bytes", []string{"String"}, fmt.Sprintf("(Array %s %s)", e.S.IntSort(), e.sortOf(sl.Elem())))
+			if !e.S.BV && !e.S.has("ax_str_bytes") {
+				e.S.decls["ax_str_bytes"] = &Decl{}
+				e.S.AddAxiom([]string{"str_to_bytes", "bytes_to_str"}, "(forall ((s String)) (! (= (bytes_to_str (str_to_bytes s) 0 (str.len s)) s) :pattern ((str_to_bytes s))))")
+			}
 			name, sort := e.arrMapName(sl.Elem())
 			h := e.heapGet(st, name, sort)
 			e.heapSet(st, name, sort, fmt.Sprintf("(store %s %s (str_to_bytes %s))", h, r, v.T))
